@@ -98,6 +98,10 @@ def name_programs():
         return (f"min sum({idx}) {{ 2 * {decl} }}\ns.t.\n    {decl} >= 1 for {idx}\n    cap: sum({idx}) {{ {decl} }} <= 40{where}"
                 f"\ndefine\n    {decl} as Real(0, 10) for {idx}")
     out = [prog("x_{i - 1}", "i in 0..3", ""), prog("x_{i / 2}", "i in 0..3", ""), prog("x_{i - 2}_{i}", "i in 1..4", "")]
+    # row names built from the same indices, a literal name that holds a brace index, aggregations over nothing
+    out.append("min sum(s in S) { x_s }\ns.t.\n    r_s: x_s >= 1 for s in S\n    cap: sum(s in S) { x_s } <= 20\nwhere\n    let S = [\"01\", \"PI\", \"a\"]\ndefine\n    x_s as Real(0, 10) for s in S")
+    out.append("min \\y_{i} + x\ns.t.\n    \\r_{i}: \\y_{i} + x >= 1\ndefine\n    \\y_{i}, x as Real(0, 10)")
+    out.append("max a + b\ns.t.\n    k: any(i in 0..0) { x_i } or a\n    not all(i in 0..0) { x_i } or b\ndefine\n    a, b as Boolean\n    x_i as Boolean for i in 0..2")
     for k, strs in enumerate((["007", "01", "7"], ["PI", "Infinity", "MinusInfinity", "E"], ["a", "10", "b2"], ["a-b", "c"], ["a b"], ["", "z"], ["2x"], ["0", "00"])):
         out.append(prog("x_s", "s in S", "let S = [" + ", ".join(f'"{t}"' for t in strs) + "]"))
         out.append(prog("y_s_{i}", "s in S, i in 0..2", "let S = [" + ", ".join(f'"{t}"' for t in strs) + "]"))
